@@ -350,6 +350,76 @@ def evaluate(ctx: Ctx, cases, res: Result, with_model=True):
     return impls
 
 
+
+# ----------------------------------------------------------------------------- through the pipeline (tasks.py wiring)
+def pipeline_case(par):
+    """The statement observed THROUGH the real task list.  The tensor family
+        C = a·E⊗E + b/2·(E⊗I + I⊗E) + c·I⊗I + d·(δδ+δδ),   E = diag(e)  (the applied axial strain fractions)
+    has, in ANY orthogonal frame, longitudinal / off-diagonal components that depend on the frame only through the diagonal of the
+    rotated strain tensor: C'_iiii = a e'_i² + b e'_i + c + 2d, C'_iijj = a e'_i e'_j + b(e'_i+e'_j)/2 + c.  The two non-shear classes
+    are replaced by stubs returning exactly these (they receive the strain fractions the pipeline hands them), the REAL shear class
+    and the REAL resolve/calculate do the rest; every one of the 21 results must be the component of C in the crystal frame:
+    c_ii = a e_i²+b e_i+c+2d, c_ij = a e_i e_j + b(e_i+e_j)/2 + c, c44=c55=c66 = d, every other component 0.
+    Returns [(what, observed, expected, site)]."""
+    import cij.core.tasks as tasks
+    from cij.util import c_
+    a, b, c, d = par["abcd"]
+    e = numpy.array(par["strain"], dtype=float)
+
+    class Long:
+        def __init__(self, calculator, params):
+            x, _ = params
+            self.value_isothermal = self.value_adiabatic = a * x * x + b * x + c + 2 * d
+    class Off:
+        def __init__(self, calculator, params):
+            x, y = params
+            self.value_isothermal = self.value_adiabatic = a * x * y + b * (x + y) / 2 + c
+    keys = [c_(i, j) for (i, j) in par["keys"]]
+    saved = tasks.LongitudinalElasticModulusPhononContribution, tasks.OffDiagonalElasticModulusPhononContribution
+    tasks.LongitudinalElasticModulusPhononContribution, tasks.OffDiagonalElasticModulusPhononContribution = Long, Off
+    try:
+        with numpy.errstate(all="ignore"):
+            tl = tasks.PhononContributionTaskList(None)
+            tl.resolve(e, keys)
+            tl.calculate()
+            got = tl.get_isothermal_results()
+    except Exception as ex:
+        return [("pipeline raised on a valid request", type(ex).__name__, "21 components", "C03:pipeline:raises")]
+    finally:
+        tasks.LongitudinalElasticModulusPhononContribution, tasks.OffDiagonalElasticModulusPhononContribution = saved
+    en = e / e.sum(axis=1, keepdims=True)
+    scale = float(max(abs(a) * float(numpy.max(en)) ** 2, abs(b), abs(c), abs(d), 1e-300))
+    out = []
+    for (i, j), k in zip(par["keys"], keys):
+        if i <= 3 and j <= 3:
+            exp = a * en[:, i - 1] * en[:, j - 1] + b * (en[:, i - 1] + en[:, j - 1]) / 2 + c + (2 * d if i == j else 0.0)
+        elif i == j:
+            exp = numpy.full(len(e), d)
+        else:
+            exp = numpy.zeros(len(e))
+        val = numpy.asarray(got[k], dtype=float)
+        if val.shape != exp.shape or not numpy.all(numpy.isfinite(val)) or float(numpy.max(numpy.abs(val - exp))) > 1e-9 * scale:
+            out.append((f"c{i}{j} assembled by the real task list from exact rotated components is not the tensor component",
+                        val.tolist(), exp.tolist(), f"C03:pipeline:{'shear' if (i > 3 or j > 3) else 'axial'}"))
+    return out
+
+
+def gen_pipeline(rng):
+    ntv = int(rng.integers(1, 4))
+    kind = rng.random()
+    if kind < 0.2:
+        e = numpy.full((ntv, 3), 1.0 / 3.0)
+    else:
+        e = rng.uniform(0.15, 1.0, size=(ntv, 3)); e = e / e.sum(axis=1, keepdims=True)
+    allk = [(i, j) for i in range(1, 7) for j in range(i, 7)]
+    if rng.random() < 0.5:
+        keys = allk
+    else:
+        keys = [allk[i] for i in rng.permutation(21)[:int(rng.integers(3, 21))]]
+        if not any(j > 3 for _, j in keys): keys.append((1, 5))
+    return {"pipeline": True, "abcd": [float(x) for x in rng.uniform(-2.0, 2.0, size=4)], "strain": e.tolist(), "keys": keys}
+
+
 def run(ctx: Ctx) -> Result:
     res = Result()
     res.distribution = {"variants": {}, "rows": {}, "cells": 0, "keys": 15}
@@ -369,6 +439,15 @@ def run(ctx: Ctx) -> Result:
                             "value_last_cell": None if impl["val"] is None else float(impl["val"][-1]),
                             "component_last_cell": float(full_tensor(numpy.array(p["c21"]).T)[
                                 STD[p["key"][0]][0] - 1, STD[p["key"][0]][1] - 1, STD[p["key"][1]][0] - 1, STD[p["key"][1]][1] - 1, -1])})
+    npipe = 60 if ctx.thorough() else 12
+    for _ in range(npipe):
+        par = gen_pipeline(ctx.rng)
+        bad = pipeline_case(par)
+        res.evaluations += len(par["keys"])
+        if not bad: res.traces_validated += len(par["keys"])
+        for what, obs, exp, site in bad[:2]:
+            res.oracle_failures.append(OracleFailure(what, par, obs, exp, site))
+    res.distribution["pipeline_cases"] = npipe
     res.extra["observed_noise"] = dict(STATS)
     res.extra["tolerances"] = {"oracle_rel_to_tensor_scale": ORACLE_TOL, "correspondence_rel_to_tensor_scale": CORR_TOL,
                                "contract_abs": CONTRACT_TOL}
@@ -406,4 +485,6 @@ def search(ctx: Ctx, res: Result):
 
 
 def replay(ctx: Ctx, payload):
+    if payload.get("pipeline"):
+        return [OracleFailure(what, payload, obs, exp, site) for what, obs, exp, site in pipeline_case(payload)]
     return [OracleFailure(what, payload, obs, exp, site) for what, obs, exp, site in oracle(payload)]
